@@ -412,6 +412,20 @@ fn main_check(ctx: &Ctx) -> Outcome {
             acc.flush(local);
         });
         out.push_part(json!({"part":"every printable ASCII character (and TAB) in 7 positions x 4 styles","characters":chars.len()}));
+        // non-ASCII characters (2-, 3-, 4-byte; code points whose low byte is a control code) next to ASCII text and
+        // next to a CRLF line end
+        let wide: Vec<char> = vec!['\u{e9}', '\u{2019}', '\u{2014}', '\u{2713}', '\u{2500}', '\u{4e16}', '\u{1f600}', '\u{11f}', '\u{10d}'];
+        wide.par_iter().for_each(|&c| {
+            let mut local = vec![];
+            for t in [format!("{c}"), format!("{c}x"), format!("x{c}y"), format!("It{c}s done\r\nnext{c}"), format!("{c}\r\n{c}"), format!("a\r\n.{c}")] {
+                for st in &styles4 {
+                    let input = format!("{}{t}", st.sequence(false));
+                    acc.case("non-ascii", input.as_bytes(), || describe(input.as_bytes()), &mut local);
+                }
+            }
+            acc.flush(local);
+        });
+        out.push_part(json!({"part":"non-ASCII characters in 6 texts (with CRLF line ends) x 4 styles","characters":wide.len()}));
     }
 
     // (D) documents of <= k segments
